@@ -119,20 +119,18 @@ impl<I: ObjectWrite> Stream<I> {
             Primitive::Null => Dictionary::new(),
             p => bail!("stream info has to be a dictionary (found {:?})", p)
         };
-        let mut params = None;
         if self.info.filters.len() > 0 {
+            // one entry per filter, in the order of /Filter
+            let mut params = Vec::with_capacity(self.info.filters.len());
             for f in self.info.filters.iter() {
-                if let Some(para) = match f {
+                params.push(match f {
                     StreamFilter::LZWDecode(ref p) => Some(p.to_primitive(update)?),
                     StreamFilter::FlateDecode(ref p) => Some(p.to_primitive(update)?),
                     StreamFilter::DCTDecode(ref p) => Some(p.to_primitive(update)?),
                     StreamFilter::CCITTFaxDecode(ref p) => Some(p.to_primitive(update)?),
                     StreamFilter::JBIG2Decode(ref p) => Some(p.to_primitive(update)?),
                     _ => None
-                } {
-                    assert!(params.is_none());
-                    params = Some(para);
-                }
+                });
             }
             let mut filters = self.info.filters.iter().map(|filter| match filter {
                 StreamFilter::ASCIIHexDecode => "ASCIIHexDecode",
@@ -151,14 +149,18 @@ impl<I: ObjectWrite> Stream<I> {
                 0 => {},
                 1 => {
                     info.insert("Filter", filters.next().unwrap().to_primitive(update)?);
+                    if let Some(para) = params.pop().unwrap() {
+                        info.insert("DecodeParms", para);
+                    }
                 }
                 _ => {
                     info.insert("Filter", Primitive::array::<Primitive, _, _, _>(filters, update)?);
+                    if params.iter().any(|p| p.is_some()) {
+                        // /DecodeParms is parallel to /Filter: null for a filter without parameters
+                        info.insert("DecodeParms", Primitive::Array(params.into_iter().map(|p| p.unwrap_or(Primitive::Null)).collect()));
+                    }
                 }
             }
-        }
-        if let Some(para) = params {
-            info.insert("DecodeParms", para);
         }
 
         let inner = match self.inner_data {
